@@ -189,6 +189,7 @@ def _inline_mir_call(facts, caller, bi, helper, tag):
         caller.setdefault("debug", []).append(_remap_mir(d, loff, boff, tag, None))
     new_blocks = _remap_mir(helper["blocks"], loff, boff, tag, None)
     for nb in new_blocks:
+        nb["inlined_from"] = helper["path"]
         tt = nb.get("term") or {}
         if tt.get("k") == "return":
             ret_local = helper["locals"][0]
@@ -269,9 +270,9 @@ def inline_new_helpers(facts, reference_functions):
                 continue
             callers = []
             hir_ok = not _has_ret(hb["body"])
-            if not hir_ok:
-                # both views or none: a helper with an early return stays a function of its own in the HIR view, so it stays one in MIR too
-                continue
+            # a helper with an early `return` cannot be inlined in the HIR view. It is still inlined in MIR (where `return` is a jump), its
+            # blocks tagged `inlined_from`, and its own MIR body is kept, so that rules which pair a MIR site with the HIR of its function
+            # (the panic-site inventory) analyse that code once, in the helper, with the HIR that matches it
             for b in list(facts.hir):
                 if b is hb or b["crate"] not in (VISITOR_CRATE, PLUGIN_CRATE):
                     continue
@@ -296,9 +297,13 @@ def inline_new_helpers(facts, reference_functions):
                         callers.append(b["path"])
             if callers:
                 # nothing refers to the helper any more (HIR calls may remain when it has an early return: then keep the HIR body)
-                facts.mir = [b for b in facts.mir if not (b["crate"] == crate and (b["path"] == hpath or b.get("parent") == hpath))]
                 if hir_ok:
+                    facts.mir = [b for b in facts.mir if not (b["crate"] == crate and (b["path"] == hpath or b.get("parent") == hpath))]
                     facts.hir = [b for b in facts.hir if b is not hb]
+                else:
+                    for b in facts.mir:
+                        if b["crate"] == crate and (b["path"] == hpath or b.get("parent") == hpath):
+                            b["analysed_inlined"] = True     # kept only for site inventories; its effects are seen in the callers
                 facts._index()
                 done[hpath] = callers
                 progress = True
